@@ -249,9 +249,9 @@ GPublish ==
     IN Step(i, PublishReqFx(Cur, s, N, u, o, NextId(used.pub), Tag))
 
 GRegister ==
-  \E s \in J : \E bad \in R(1..6) : \E k \in R(IF bad = 1 THEN BadKeys \cup {<<U_wampx, "">>} ELSE Keys) :
+  \E s \in J : \E bad \in (IF Scripted THEN {2} ELSE R(1..6)) : \E k \in R(IF bad = 1 THEN BadKeys \cup {<<U_wampx, "">>} ELSE Keys) :
   \E inv \in W(<<"", "single", "roundrobin", "roundrobin", "first", "last", "random">>),
-     dcl \in W(<<FALSE, FALSE, TRUE>>), fwd \in R(BOOLEAN) :
+     dcl \in (IF Scripted THEN {FALSE} ELSE W(<<FALSE, FALSE, TRUE>>)), fwd \in R(BOOLEAN) :
     LET o == [O0 EXCEPT !.match = k[2], !.invoke = inv, !.dcl = dcl, !.fwd = fwd]
         i == [In0 EXCEPT !.op = "register", !.s = s, !.req = N, !.uri = k[1], !.o = o]
     IN Step(i, RegisterFx(Cur, s, N, k[1], o, NextId(used.reg)))
@@ -294,8 +294,9 @@ GUnregister ==
          LET i == [In0 EXCEPT !.op = "unregister", !.s = s, !.req = N, !.id = id]
          IN Step(i, UnregisterFx(Cur, s, N, id))
 
+AllCallees == UNION {Rng(regs[k].callees) : k \in DOMAIN regs}
 GCall ==
-  \E s \in J : \E hit \in R(1..3) :
+  \E s \in (IF Scripted /\ J \ AllCallees # {} THEN J \ AllCallees ELSE J) : \E hit \in (IF Scripted THEN {2} ELSE R(1..3)) :
   \E u \in R(LET routable == {t \in Targets : BestRegs(Cur, t) # {}} IN IF routable # {} /\ hit # 1 THEN routable ELSE Targets) :
   \E dme \in (IF Scripted THEN {FALSE} ELSE W(<<FALSE, FALSE, TRUE>>)), rprog \in (IF Scripted THEN {TRUE} ELSE R(BOOLEAN)),
      tmo \in (IF Scripted THEN {0} ELSE W(<<0, 0, 1, 50, 1000>>)), ppt \in PptPick(N) :
@@ -362,13 +363,15 @@ GAnswer ==
            [] OTHER -> LET i == [In0 EXCEPT !.op = "yield", !.s = s, !.id = inv, !.tag = Tag, !.o = [O0 EXCEPT !.prog = (how = "prog"), !.ppt = ppt]]
                        IN Step(i, YieldFx(Cur, s, inv, how = "prog", ppt, Tag))
 
+\* (scripted sequences: the callee whose caller does not read answers, not just anybody)
+HotCallees == {calls[c].callee : c \in {cc \in DOMAIN calls : sess[cc[1]].stalled /\ calls[cc].callee \in J}}
 GYield ==
-  \E s \in J :
+  \E s \in (IF Scripted /\ HotCallees # {} THEN HotCallees ELSE J) :
     LET mine == InvIds(s)
         \* invocations whose caller does not read: the result-retry exception of C07
         blocked == {calls[c].inv : c \in {cc \in DOMAIN calls : calls[cc].callee = s /\ sess[cc[1]].stalled}}
         any  == used.inv[s] \cup {NextId(used.inv[s]) + 5}
-    IN \E own \in R(1..4) : \E inv \in R(IF blocked # {} /\ own # 1 THEN blocked ELSE IF mine # {} /\ own # 1 THEN mine ELSE any) :
+    IN \E own \in (IF Scripted THEN {2} ELSE R(1..4)) : \E inv \in R(IF blocked # {} /\ own # 1 THEN blocked ELSE IF mine # {} /\ own # 1 THEN mine ELSE any) :
        \* (a progressive result first, to fill the queue of a caller that does not read)
        \E prog \in (IF Scripted /\ blocked # {} /\ \E cc \in DOMAIN calls : calls[cc].inv = inv /\ calls[cc].callee = s /\ Room(Cur, cc[1])
                     THEN {TRUE} ELSE W(<<FALSE, FALSE, TRUE>>)), ppt \in PptPick(N) :
@@ -607,6 +610,8 @@ GenNext ==
                    \* a kill-mode cancel is outstanding: let the callee answer soon
                    ELSE IF coin = 1 /\ (\E n \in DOMAIN KindBag : KindBag[n] = "answer")
                            /\ (\E c \in DOMAIN calls : calls[c].canceled /\ calls[c].callee \in J) THEN {"answer"}
+                   \* (scripted: when nobody is able to send anything - handlers held, sessions not reading - time passes)
+                   ELSE IF Scripted /\ J = {} /\ KindBag[(Len(h) % Len(KindBag)) + 1] \notin {"join", "adv", "resume"} THEN {"adv"}
                    ELSE IF Scripted THEN {KindBag[(Len(h) % Len(KindBag)) + 1]}
                    ELSE W(KindBag)) :
      CASE kind = "join"   -> GJoin
